@@ -274,6 +274,25 @@ type c12Case struct {
 	Sources []map[string]any `json:"sources,omitempty"`
 }
 
+// c12Tokens: minimal number of alphabet tokens that spell s (greedy longest match is enough for this alphabet filter)
+func c12Tokens(s string, toks []string) []string {
+	var out []string
+	for len(s) > 0 {
+		best := ""
+		for _, t := range toks {
+			if strings.HasPrefix(s, t) && len(t) > len(best) {
+				best = t
+			}
+		}
+		if best == "" {
+			best = s[:1]
+		}
+		out = append(out, best)
+		s = s[len(best):]
+	}
+	return out
+}
+
 func c12Trunc(s string) string {
 	if len(s) > 70 {
 		return s[:70]
@@ -311,6 +330,69 @@ func c12Expand(s string, def bool) (string, string) {
 	// "its original text when ... assigned to a string field"
 	if strErr == nil && strField != want {
 		return "expansion-disagreement:root=" + c12Subclass(s), "string-field target differs: " + desc()
+	}
+	return "", ""
+}
+
+// c12ContainerCheck: a string expands to the same thing wherever it sits: as an element of a list (first, last, inside a
+// map that is a list element) it must resolve exactly as it does as a plain value (differential oracle).
+func c12ContainerCheck(sv string, def bool) (string, string) {
+	alone, _, _, aerr := c12Resolve(sv, def)
+	shapes := map[string]func(x any) any{
+		"list-first":       func(x any) any { return []any{x, "static"} },
+		"list-last":        func(x any) any { return []any{"static", x} },
+		"map-in-list":      func(x any) any { return []any{map[string]any{"q": x}, 1} },
+		"list-in-map":      func(x any) any { return map[string]any{"l": []any{x, "static", x}} },
+		"list-middle-deep": func(x any) any { return []any{"a", []any{x, "b"}, "c"} },
+	}
+	pick := map[string]func(v any) any{
+		"list-first":       func(v any) any { return v.([]any)[0] },
+		"list-last":        func(v any) any { return v.([]any)[1] },
+		"map-in-list":      func(v any) any { return v.([]any)[0].(map[string]any)["q"] },
+		"list-in-map":      func(v any) any { return v.(map[string]any)["l"].([]any)[0] },
+		"list-middle-deep": func(v any) any { return v.([]any)[1].([]any)[0] },
+	}
+	var names []string
+	for n := range shapes {
+		names = append(names, n)
+	}
+	sort.Strings(names)
+	for _, n := range names {
+		var got any
+		var gerr error
+		nonterm, pan := vs.Guard(func() {
+			var r *Resolver
+			r, gerr = c12Resolver([]map[string]any{{"k": shapes[n](sv)}}, def)
+			if gerr != nil {
+				return
+			}
+			var conf *Conf
+			conf, gerr = r.Resolve(context.Background())
+			if gerr == nil {
+				got = conf.ToStringMap()["k"]
+			}
+		})
+		if nonterm || pan != nil {
+			return "container-hang-or-panic:" + n, fmt.Sprintf("%q in %s: nonterm=%v panic=%v", sv, n, nonterm, pan)
+		}
+		if (gerr != nil) != (aerr != nil) {
+			return "container-error-differs:" + n, fmt.Sprintf("%q default_scheme=%v: as a plain value err=%v, in %s err=%v (value %v)", sv, def, aerr, n, gerr, got)
+		}
+		if gerr != nil {
+			continue
+		}
+		var elem any
+		func() {
+			defer func() {
+				if r := recover(); r != nil {
+					elem = fmt.Sprintf("<shape changed: %v>", got)
+				}
+			}()
+			elem = pick[n](got)
+		}()
+		if c12J(elem) != c12J(alone) {
+			return "container-value-differs:" + n, fmt.Sprintf("%q default_scheme=%v: as a plain value it resolves to %s, in %s to %s", sv, def, c12J(alone), n, c12J(elem))
+		}
 	}
 	return "", ""
 }
@@ -453,6 +535,8 @@ func TestVerif(t *testing.T) {
 			return c12Expand(c.S, c.Def)
 		case "typed":
 			return c12TypedCheck(c.Key, c.Def)
+		case "container":
+			return c12ContainerCheck(c.S, c.Def)
 		default:
 			return c12MergeCheck(c.Sources)
 		}
@@ -522,6 +606,15 @@ func TestVerif(t *testing.T) {
 				return
 			}
 			do(c12Case{Kind: "expand", S: s, Def: def}, strings.Contains(s, "${") || strings.Contains(s, "$$"))
+		}
+	}
+	// 1b. the same strings inside lists / maps in lists (all strings of up to 2 tokens)
+	for _, def := range []bool{false, true} {
+		for _, s := range all {
+			if len(c12Tokens(s, toks)) > ctx.Param("container_tokens", 2) {
+				continue
+			}
+			do(c12Case{Kind: "container", S: s, Def: def}, strings.Contains(s, "${"))
 		}
 	}
 	// 2. typed whole values and string targets
